@@ -161,7 +161,8 @@ def _emit_msg(m, ind, pkg_mod, derive):
         rt = _rust_type(ty, pkg_mod, m)
         if label == "repeated":
             rt = "Vec<%s>" % rt
-        elif label != "plain":
+        elif label != "plain" or ty not in SCALARS:
+            # explicit presence (`optional`), and every singular MESSAGE field, is an Option in prost
             rt = "Option<%s>" % rt
         lines.append(ind + "    pub %s: %s," % (snake(name), rt))
     for oname, alts in m.oneofs:
